@@ -325,6 +325,9 @@ def other_inputs(rng, tier):
         # that consists of such records only: whatever an earlier, possibly failed, decode left behind must not show in frame 1
         add("vwsc:syn-first-empty-%d" % fs, "vwsc", score([[], [(2, b"\x05")], []], fs), cuts=False)
         add("vwsc:syn-all-empty-%d" % fs, "vwsc", score([[], []], fs), cuts=False)
+        # the same with OTHER channel counts: what the initial empty frame looks like depends on the score's own header
+        add("vwsc:syn-first-empty-%d-ch3" % fs, "vwsc", score([[], [(2, b"\x05")], []], fs, channels=3), cuts=False)
+        add("vwsc:syn-first-empty-%d-ch12" % fs, "vwsc", score([[], []], fs, channels=12), cuts=False)
         add("vwsc:syn-bad-late-%d" % fs, "vwsc", score([[(44, b"\x09\x09\x07\x01")], [(4, b"\x03")], [(0, b"\x01")] * 1 + [(900, b"\x01")]], fs), cuts=False)
     # CASt chunks out of the cast fixtures' movies
     try:
